@@ -11,6 +11,7 @@ import multiprocessing as mp
 import z3
 
 QUICK_MS = int(os.environ.get('VERIF_Z3_MS', '20000'))
+FIRST_MS = int(os.environ.get('VERIF_Z3_FIRST_MS', '4000'))
 _OBLS = None
 _AX = None
 
@@ -69,10 +70,21 @@ def small_model(constraints, axioms, hints, timeout_ms=8000):
 def solve_one(ob, axioms, timeout_ms=None, want_model=True, seed=0, hints=()):
     timeout_ms = timeout_ms or QUICK_MS
     t0 = time.time()
-    s = _solver(ob, axioms, timeout_ms, seed)
+    s = _solver(ob, axioms, min(timeout_ms, FIRST_MS), seed)
     r = s.check()
     backend = 'z3'
     model = None
+    if r == z3.unknown:
+        # second attempt: explicit skolemisation (nnf) first -- goal-side quantifiers become constants and the
+        # bit-vector obligations are then decided by bit-blasting instead of the quantifier engine
+        s1 = z3.Then('simplify', 'nnf', 'smt').solver()
+        s1.set('timeout', timeout_ms * 3)
+        for f in s.assertions():
+            s1.add(f)
+        r = s1.check()
+        backend = 'z3-nnf'
+        if r == z3.sat and want_model:
+            model = s1.model()
     if r == z3.unknown:
         r2 = _cvc5(s.to_smt2(), max(5, timeout_ms // 1000))
         backend = 'cvc5'
